@@ -8,7 +8,7 @@ from pyvc.spec import *
 FT = "operon_ai/coordination/types.py"
 FC = "operon_ai/coordination/controller.py"
 
-shape("DependencyGraph", edges="dict:str,list:any")
+shape("DependencyGraph", edges="dict:str,list:tuple:str;str")
 shape("ResourceLock", resource_id="str", owner="opt:str", owner_priority="int", hold_count="int", acquired_at="opt:datetime",
       allow_preemption="bool", waiting_list="list:any")
 shape("OperationContext", operation_id="str", agent_id="str", priority="int", phase="enum:Phase",
@@ -29,8 +29,8 @@ contract(FT + "::DependencyGraph.add_dependency", "C15", ghost_params=TRIPLE, ra
          inline=False, returns="none", modifies=["self.edges"],
          ensures={"adds-exactly-that-edge": "in_view(self, w0, b0, r0) == (in_view(old(self), w0, b0, r0) or (w0 == waiter and b0 == blocking and r0 == resource))"})
 
-# assumed contract (its loop over keys with tuple-unpacking filters is outside the engine's list abstraction; validated by the bounded stand-in):
-# remove_all_for_agent(a) removes exactly the triples that mention a as waiter or as blocker
+# remove_all_for_agent(a) removes exactly the triples that mention a as waiter or as blocker: proved below (it used to be an assumed contract);
+# inside acquire_resource / release_resource the call is still havocked, because the obligation there is the call-site clause itself
 REMOVE_ALL = {"DependencyGraph.remove_all_for_agent": {"returns": "none", "raises": ()},
               "ResourceLock._add_to_waiting": {"returns": "none", "raises": ()}}
 
@@ -57,12 +57,30 @@ contract(FC + "::CellCycleController.release_resource", "C15",
          ensures={})
 
 # the other half of exactness for a release: once the releaser has given the resource back, nobody is recorded as waiting on the releaser for it
-# (a stale edge makes detect_cycle report deadlocks that are not there).  Uses the ASSUMED contract of remove_all_for_agent.
-contract(FT + "::DependencyGraph.remove_all_for_agent", "C15", ghost_params=TRIPLE, raises=[], inline=False, returns="none", modifies=["self.edges"],
-         options={"assumed": "remove_all_for_agent(a) removes exactly the wait-for triples that mention a as waiter or as blocker "
-                             "(its loops over dict keys with tuple-unpacking filters are outside the engine's list abstraction; validated by the bounded stand-in)"},
+# (a stale edge makes detect_cycle report deadlocks that are not there).  Uses the contract of remove_all_for_agent, which is proved here:
+# the loop over a snapshot of the keys is cut with an invariant over an ARBITRARY triple (w0, b0, r0) in terms of the position at which the
+# loop visits w0 (visit_index / in_visit: each key of the snapshot is visited exactly once); the filter comprehension keeps exact membership
+# (x in result <=> x in source and b != agent); the invariants are instantiated for the key the iteration visits ("instances").
+RM_LOOP = "for waiter in list(self.edges.keys())"
+contract(FT + "::DependencyGraph.remove_all_for_agent", "C15", self_type="DependencyGraphD", ghost_params=TRIPLE, raises=[], inline=False, returns="none",
+         modifies=["self.edges"],
          ghost_instances=[{"b0": "agent"}],
+         loops={RM_LOOP: {
+             "invariant": [
+                 # keys already visited: only the triples that do not mention the agent as blocker are left
+                 "implies(in_visit(w0) and visit_index(w0) < _k, in_view(self, w0, b0, r0) == (in_view(old(self), w0, b0, r0) and w0 != agent and b0 != agent))",
+                 # keys still to be visited are as the first step left them, and are still keys
+                 "implies(in_visit(w0) and visit_index(w0) >= _k, w0 in self.edges and "
+                 "((b0, r0) in self.edges[w0]) == (in_view(old(self), w0, b0, r0) and w0 != agent))",
+                 # nothing is added: a key outside the visited set stays outside the view
+                 "implies(not in_visit(w0), w0 not in self.edges)",
+                 "in_visit(w0) == (w0 in old(self).edges and w0 != agent)"],
+             "instances": [{"w0": "waiter"}],
+         }},
          ensures={"removes-exactly-the-agents-triples": "in_view(self, w0, b0, r0) == (in_view(old(self), w0, b0, r0) and w0 != agent and b0 != agent)"})
+contract(FT + "::DependencyGraph.remove_dependency", "C15", ghost_params=TRIPLE, raises=[], modifies=["self.edges"],
+         ensures={"removes-exactly-the-waiters-edges-on-that-blocker":
+                  "in_view(self, w0, b0, r0) == (in_view(old(self), w0, b0, r0) and not (w0 == waiter and b0 == blocking))"})
 contract(FC + "::CellCycleController.release_resource", "C15", variant="no-stale-edge",
          params={"ctx": "obj:OperationContext"}, ghost_params=TRIPLE,
          pre_state={"alias_values": {"ctx.acquired_resources": "self.resources"}},
